@@ -11,7 +11,13 @@ Reading guide.  `Safe e` (`Model/QLSpec.lean`, decidable) = the normal form the 
 (`WF e`) + the parenthesisation side conditions under which the printer's output denotes `e`
 again.  The side conditions are NOT implied by `WF`: the real printer writes prefix operators
 (`-x`, `NOT (x)`, `<T>x`, `DETACHED x`, folded negative literals) and `(arg)[i]` without enclosing
-parentheses, so e.g. `(-1) ^ x` is printed as `(-1 ^ x)`, which denotes `-(1 ^ x)`.  The
+parentheses, so e.g. `(-1) ^ x` is printed as `(-1 ^ x)`, which denotes `-(1 ^ x)`.  Since the
+third session the model also contains `Path`s with outbound pointer steps (`base.s.t`,
+`Expr.path`): `visit_Path` writes `base.s` bare or `(base).s` and never parenthesises the whole
+path, so `DETACHED (x.y)` is printed as `DETACHED x.y`, which denotes `(DETACHED x).y`
+(`P_DETACHED` is above `P_DOT`); the side condition `detachedLvl ≤ unitLvl e` of `Safe` excludes
+exactly that.  Still outside the model: slices, named tuples / named args, `@prop` / `.<back` /
+`[IS T]` / `.0` steps, partial paths.  The
 `…_counterexample` theorems below prove that for the model; the harness replays the same inputs
 on the real printer + parser (they fail there in the same way).
 -/
@@ -31,7 +37,7 @@ theorem C01_idempotent (e : Expr) (h : Safe e) : (parse (pp e)).map pp = some (p
   rw [QL.parse_pp e h]; rfl
 
 /-- **Normal form**: every tree the parser returns is in parser normal form (no unary minus over a
-    numeric constant, flattened non-empty `Indirection`, atoms are atom tokens) — so `WF` is exactly
+    numeric constant, flattened non-empty `Indirection`, flattened `Path`, atoms are atom tokens) — so `WF` is exactly
     the shape of ASTs the printer is ever handed by the parser. -/
 theorem C01_parse_wf (ts : List Tok) (e : Expr) (h : parse ts = some e) : WF e :=
   QL.parse_wf ts e h
@@ -78,6 +84,18 @@ theorem C01_roundtrip_counterexample_detached_index :
         = some (.index (.detached (.name "x")) [.num 0 .int "1"]) from by rfl]
   intro h; cases h
 
+/-- `DETACHED (x.y)` is printed as `DETACHED x.y`, which denotes `(DETACHED x).y`
+    (`DETACHED` binds tighter than `.`; `visit_Path` never parenthesises the path).
+    Real code: `select detached (x.y)`. -/
+theorem C01_roundtrip_counterexample_detached_path :
+    let e := Expr.detached (.path (.name "x") "y" [])
+    WF e ∧ parse (pp e) = some (.path (.detached (.name "x")) "y" [])
+      ∧ parse (pp e) ≠ some e := by
+  refine ⟨by decide, by rfl, ?_⟩
+  rw [show parse (pp (Expr.detached (.path (.name "x") "y" [])))
+        = some (.path (.detached (.name "x")) "y" []) from by rfl]
+  intro h; cases h
+
 /-! ### Non-vacuity: concrete non-trivial expressions meeting `Safe` -/
 
 /-- `(f(-1, <T>x) + (a IF NOT (b) ELSE [1, 2][0])) IS NOT T`-like nesting -/
@@ -98,5 +116,18 @@ def ex2 : Expr :=
     (.binop .o_circumflex (.name "x") (.unop .minus (.cast "T" (.num 2 .float "1.5"))))
 
 example : Safe ex2 := by decide
+
+/-- paths: `-(((f(1)).a.b)[x.y]).c + <T>{1}.d`: bare and parenthesised bases, several steps, a path
+    as index / under an index, under prefix operators below `.` -/
+def ex3 : Expr :=
+  .binop .o_plus
+    (.unop .minus
+      (.path (.index (.path (.call "f" [.num 0 .int "1"]) "a" ["b"]) [.path (.name "x") "y" []]) "c" []))
+    (.cast "T" (.path (.set [.num 0 .int "1"]) "d" []))
+
+example : Safe ex3 := by decide
+example : parse (pp ex3) = some ex3 := C01_roundtrip ex3 (by decide)
+/-- `DETACHED` over a path is the one prefix operator that is NOT safe -/
+example : ¬ Safe (.detached (.path (.name "x") "y" [])) := by decide
 
 end EdbVerif.C01
